@@ -20,6 +20,8 @@ CASES = [
     ("line safety: minus keeps a commented operand on its line", EX, "|| (matches!(unop, UnOp::Minus(_)) && expression.has_leading_comments(CommentSearch::All))", "|| (matches!(unop, UnOp::Minus(_)) && expression.has_leading_comments(CommentSearch::Single))", "expr", "all", "C01.unary_operand_below_comment"),
     ("hang_binop: no newline pushed", EX, "    leading_comments.push(create_newline_trivia(ctx));\n    leading_comments.push(create_indent_trivia(ctx, shape));\n", "    leading_comments.push(create_indent_trivia(ctx, shape));\n", "expr", "all", "C01.hang_binop_starts_line"),
     ("hang_binop: trailing trivia kept", EX, "        FormatTriviaType::Replace(vec![Token::new(TokenType::spaces(1))]),\n    )\n}", "        FormatTriviaType::NoChange,\n    )\n}", "expr", "all", "C01.hang_binop_starts_line"),
+    ("hang_binop: the operator's trailing comments are not moved", EX, "    leading_comments.append(&mut trailing_comments);\n", "", "expr", "all", "C03.hang_binop_keeps_comments"),
+    ("hang_binop: the right operand's leading comments are not moved", EX, "    leading_comments.append(&mut expression_leading_comments);\n", "", "expr", "all", "C03.hang_binop_keeps_comments"),
     ("format_binop: `+` printed as `-`", EX, '        Plus = " + ",', '        Plus = " - ",', "expr", "default", "C02.format_binop_prints_the_operator"),
     ("format_unop: `#` arm dropped", EX, '        Hash = "#",\n', "", "expr", "default", "C05.format_unop_same_operator"),
     ("parentheses: (-a)^b loses them on the single-line path", EX, "ExpressionContext::BinaryLHSExponent\n            } else {\n                ExpressionContext::BinaryLHS\n            };\n            let lhs = format_expression_internal(ctx, lhs, lhs_context, shape);", "ExpressionContext::BinaryLHS\n            } else {\n                ExpressionContext::BinaryLHS\n            };\n            let lhs = format_expression_internal(ctx, lhs, lhs_context, shape);", "expr", "default", "C05.single_line.wf"),
